@@ -37,7 +37,7 @@ def gen_value(rng):
     if r < 0.5:
         return rng.choice([0, 1, 2, 3, 0x10, 0x12, 0xFF, -1])
     if r < 0.62:
-        return rng.choice(["", "a", "READ", "x y"])
+        return rng.choice(["", "a", "READ", "x y", "A", "B", "x", "READ_10", "value"])     # some values spell other members' names
     if r < 0.7:
         return {"$bytes": rng.choice(["", "00", "0102"])}
     if r < 0.77:
@@ -124,7 +124,7 @@ def execute(prog):
                     continue
                 if got is not val and got != val:
                     viol("C18.value", "value", "%s -> %s (enum #%d after %s)" % (name, show(val), n, after), show(got))
-            probes = list(M.values()) + [12345, "no-such-value"]
+            probes = list(M.values()) + [12345, "no-such-value", None, "pyscsi.utils.enum", "Enum", 0, ""]
             for v in probes:
                 want = next((k for k, x in M.items() if x == v), "")
                 try:
